@@ -45,7 +45,8 @@ type Case struct {
 	Sched   []byte `json:"sched"`
 }
 
-var advTable = []int{1, 9, 10, 11, 25, 50, 100}
+// (the last two entries are long waits, drawn only for C04 histories without retry timers)
+var advTable = []int{1, 9, 10, 11, 25, 50, 100, 2500, 60000}
 
 func genCase(prop string) func(t *rapid.T) Case {
 	return func(t *rapid.T) Case {
@@ -103,7 +104,11 @@ func genCase(prop string) func(t *rapid.T) Case {
 				op.Out = rapid.SampledFrom([]string{"nil", "err", "err", "ctxerr", "wrapcancel"}).Draw(t, "out")
 				op.Pick = rapid.IntRange(0, 3).Draw(t, "pick")
 			case "advance":
-				op.D = rapid.IntRange(0, len(advTable)-1).Draw(t, "d")
+				op.D = rapid.IntRange(0, 6).Draw(t, "d")
+				if prop == "C04" && len(c.Retry) == 0 && rapid.IntRange(0, 2).Draw(t, "long") == 0 {
+					// an instance may take any time to return: nothing starts beside it meanwhile
+					op.D = rapid.IntRange(7, len(advTable)-1).Draw(t, "dlong")
+				}
 			case "waitexited":
 				op.RINR = rapid.Bool().Draw(t, "rinr")
 				op.ErrCh = rapid.IntRange(0, 2).Draw(t, "errch") == 0
